@@ -47,10 +47,21 @@ itself, and nothing else - not the float NaN, not `None` -/
 theorem nat_eq (b : EVal) : eq .nat b = true ↔ b = .nat := by
   cases b <;> simp [eq, EVal.norm, eqN]
 
-/-- a duration (`timedelta`, `pd.Timedelta`, `np.timedelta64` of any unit) equals exactly the same duration: never a number
+/-- a duration (`timedelta`, `pd.Timedelta`, `np.timedelta64` in the units pandas holds: W, D, h, m, s, ms, us, ns - NOT years / months,
+see `cdelta_eq`, and not ps / fs / as, which have no wire spelling) equals exactly the same duration: never a number
 (numpy's own `np.timedelta64(1, 'D') == 1` is gone with C14-F6), never a container -/
 theorem tdelta_eq (d : Int) (b : EVal) : eq (.tdelta d) b = true ↔ b = .tdelta d := by
   cases b <;> simp [eq, EVal.norm, eqN] <;> exact eq_comm
+
+/-- an `np.timedelta64` in YEARS or MONTHS (review t5; `cdelta m` = `m` months, a year is 12) equals exactly the year / month durations of as
+many months: never a number (numpy: `1 == timedelta64(1,'Y') == timedelta64(12,'M') == 12`, the intransitive chain that fix C14-F9 removes),
+never a `tdelta` (numpy has no common unit for months and days), never a container -/
+theorem cdelta_eq (m : Int) (b : EVal) : eq (.cdelta m) b = true ↔ b = .cdelta m := by
+  cases b <;> simp [eq, EVal.norm, eqN] <;> exact eq_comm
+
+/-- the chain of the review on the model: one year is twelve months, and neither is the number that counts it -/
+example : eq (.cell (.int 1)) (.cdelta 12) = false ∧ eq (.cdelta (12 * 1)) (.cdelta 12) = true ∧ eq (.cdelta 12) (.cell (.int 12)) = false
+    ∧ eq (.cdelta 12) (.tdelta 12) = false ∧ eq (.arr [1] [.cdelta 12]) (.arr [1] [.cell (.int 12)]) = false := by decide
 
 /-- a date equals exactly that date: not the datetime (`Timestamp`, `np.datetime64` of any unit) at its midnight -/
 theorem date_eq (d : Int) (b : EVal) : eq (.date d) b = true ↔ b = .date d := by
